@@ -428,8 +428,16 @@ func (e *engine) deepTree(h deepCfg) {
 			runs[g] = runsStr(x.FreeRuns(v1.BlockBitmapBytes(g), v1.BlocksInGroup(g)))
 		}
 		sbfree := v1.FreeBlocks
+		// ownership: what a owns before its append (mode=fsck: `ext4own.grow`, incl. the tree's node blocks in i_blocks)
+		var opre *ownPre
+		if e.fsck && c.Want(id) {
+			opre = ownSnapshot(d, cfg.Start, inoA)
+		}
 		if appendTo("a", ha, 'a'); failed {
 			return
+		}
+		if opre != nil {
+			emitOwnGrow(c, id, opre, d, cfg.Start)
 		}
 		// the tree of a as it is on the device now
 		v2, err := x.ParseView(d, cfg.Start)
@@ -524,6 +532,12 @@ func (e *engine) deepTree(h deepCfg) {
 	c.Distinct(fmt.Sprintf("%s|%s|%d|%v", h.name, cfg.Name, h.rounds, h.reopen))
 	// the end: remove a (its tree blocks must be released), then check once more
 	id := h.name + "/remove"
+	// the blocks of the deep file (data and every node block of its depth-2 tree) go to the accounting machine's
+	// Remove step, which must arrive at the bitmaps and counters of the image afterwards (`ext4acc.remove`)
+	var rpre *rmPre
+	if e.fsck && c.Want(id) {
+		rpre = e.preRemove(d, cfg, rn, op{kind: "remove", path: "a"})
+	}
 	if out := rn.exec(op{kind: "remove", path: "a"}); out.refused != nil || out.panicked != "" {
 		c.Fail(id, "-", fmt.Sprintf("Remove of the deep file: %v %s", out.refused, out.panicked), repro())
 		return
@@ -532,6 +546,10 @@ func (e *engine) deepTree(h deepCfg) {
 		if ok, fout := x.FsckDev(d, cfg.Start, cfg.Size, scratch, "deep"); !ok {
 			c.Fail(id, "-", "e2fsck -f -n after Remove of the deep file: "+x.FsckSummary(fout), repro())
 			return
+		}
+		if va, err := x.ParseView(d, cfg.Start); err == nil && rpre != nil {
+			emitRemove(c, id, rpre, va)
+			c.Stat("acct.remove-deep-tree")
 		}
 	} else if diff := observe(fs, r, true, nil); diff != "" {
 		c.Fail(id, "-", "after Remove of the deep file: "+diff, repro())
